@@ -15,6 +15,9 @@ struct colvarvalue {
   int type() const { return value_type; }
   colvarvalue(int t) : value_type(t) {}       // colvarvalue(Type): an unset value of that type
   void apply_constraints() {}
+  void set_random() { real_value = sreal_call(CID_USER + 4, real_value.nid()); }
+  colvarvalue &operator-=(cvm::real const &b) { real_value -= b; return *this; }
+  colvarvalue &operator+=(cvm::real const &b) { real_value += b; return *this; }
   colvarvalue &operator+=(colvarvalue const &b) { real_value += b.real_value; return *this; }
   colvarvalue &operator-=(colvarvalue const &b) { real_value -= b.real_value; return *this; }
   colvarvalue &operator*=(cvm::real const &a) { real_value *= a; return *this; }
@@ -32,5 +35,10 @@ inline cvm::real operator*(colvarvalue const &x, colvarvalue const &y) { return 
 inline colvarvalue operator+(colvarvalue const &x, colvarvalue const &y) { colvarvalue r(x.real_value + y.real_value); return r; }
 inline colvarvalue operator-(colvarvalue const &x, colvarvalue const &y) { colvarvalue r(x.real_value - y.real_value); return r; }
 inline colvarvalue operator/(colvarvalue const &x, cvm::real const &a) { colvarvalue r(x.real_value / a); return r; }
+inline colvarvalue operator/(colvarvalue const &x, double a) { colvarvalue r(x.real_value / a); return r; }
+inline bool operator<(colvarvalue const &x, double a) { return x.real_value.v < a; }
+inline bool operator>(colvarvalue const &x, double a) { return x.real_value.v > a; }
+inline bool operator<(colvarvalue const &x, int a) { return x.real_value.v < (double) a; }
+inline bool operator>(colvarvalue const &x, int a) { return x.real_value.v > (double) a; }
 inline colvarvalue operator*(colvarvalue const &x, double a) { colvarvalue r(x.real_value * a); return r; }
 #endif
